@@ -22,6 +22,7 @@ import (
 	"strings"
 	"sync"
 	"sync/atomic"
+	"syscall"
 	"testing"
 	"time"
 
@@ -65,6 +66,7 @@ type stats struct {
 	Resolves    int                `json:"resolves"`
 	Fallbacks   int                `json:"fallback_answers"`
 	Gone        int                `json:"requester_gone_scenarios"`
+	Hangs       int                `json:"dial_timeout_scenarios"`
 	Events      int                `json:"events"`
 	GateArrival map[string]int     `json:"gate_arrivals"`
 	Stored      map[string]int     `json:"store_events"`
@@ -517,16 +519,98 @@ func e2eCache(t *testing.T, tw *tracefmt.Writer, st *stats, rng *rand.Rand, runs
 	}
 }
 
-// e2eFallback: one status request against a route whose backends answer or fail.
+// hangingPort opens a listening socket with a full accept queue: further connection attempts get
+// no answer and run into the dialer's timeout (a black-holed backend). Returns 0 if that cannot be
+// arranged here.
+func hangingPort() (port int, closeFn func()) {
+	fd, err := syscall.Socket(syscall.AF_INET, syscall.SOCK_STREAM, 0)
+	if err != nil {
+		return 0, func() {}
+	}
+	cleanup := []func(){func() { _ = syscall.Close(fd) }}
+	closeFn = func() {
+		for _, f := range cleanup {
+			f()
+		}
+	}
+	_ = syscall.SetsockoptInt(fd, syscall.SOL_SOCKET, syscall.SO_REUSEADDR, 1)
+	if err := syscall.Bind(fd, &syscall.SockaddrInet4{Addr: [4]byte{127, 0, 0, 1}}); err != nil {
+		closeFn()
+		return 0, func() {}
+	}
+	if err := syscall.Listen(fd, 0); err != nil {
+		closeFn()
+		return 0, func() {}
+	}
+	sa, err := syscall.Getsockname(fd)
+	if err != nil {
+		closeFn()
+		return 0, func() {}
+	}
+	port = sa.(*syscall.SockaddrInet4).Port
+	// fill the accept queue until a connect gets no answer
+	for k := 0; k < 8; k++ {
+		c, err := net.DialTimeout("tcp4", fmt.Sprintf("127.0.0.1:%d", port), 250*time.Millisecond)
+		if err != nil {
+			return port, closeFn
+		}
+		cleanup = append(cleanup, func() { _ = c.Close() })
+	}
+	closeFn()
+	return 0, func() {}
+}
+
+// tryCounter counts the lb.try events per backend address (how often the code tried a backend).
+type tryCounter struct {
+	mu sync.Mutex
+	n  map[string]int
+}
+
+func (c *tryCounter) onEvent(_ string, name string, kv []any) {
+	if name != "lb.try" {
+		return
+	}
+	c.mu.Lock()
+	c.n[fmt.Sprint(sched.KV(kv)["backend"])]++
+	c.mu.Unlock()
+}
+
+func (c *tryCounter) get(addr string) int {
+	c.mu.Lock()
+	defer c.mu.Unlock()
+	return c.n[addr]
+}
+
+// e2eFallback: status requests against a route whose backends answer, fail (accept and close,
+// answer garbage, say nothing) or never answer the connect (dial timeout).
 func e2eFallback(t *testing.T, tw *tracefmt.Writer, st *stats, rng *rand.Rand, n int) {
+	tc := &tryCounter{n: map[string]int{}}
+	ctl := sched.New(nil)
+	ctl.OnEvent = tc.onEvent
+	ctl.Install()
+	defer ctl.Uninstall()
 	for i := 0; i < n; i++ {
 		nb := 1 + rng.Intn(3)
 		oks := make([]bool, nb)
 		var bes []*literig.Backend
 		var addrs []string
+		var cleanups []func()
+		hang := false
+		// every fifth scenario: a backend that never answers the connect, ahead of the others
+		wantHang := i%5 == 2
 		for b := 0; b < nb; b++ {
 			b := b
-			oks[b] = rng.Intn(3) == 0
+			if wantHang && b == 0 {
+				if port, cl := hangingPort(); port != 0 {
+					cleanups = append(cleanups, cl)
+					oks[b] = false
+					bes = append(bes, nil)
+					addrs = append(addrs, fmt.Sprintf("127.0.0.1:%d", port))
+					hang = true
+					continue
+				}
+			}
+			oks[b] = rng.Intn(3) == 0 || (hang && b == nb-1 && i%2 == 0)
 			mode := rng.Intn(3)
 			be, err := literig.Listen("127.0.0.1:0")
 			if err != nil {
@@ -568,7 +652,12 @@ func e2eFallback(t *testing.T, tw *tracefmt.Writer, st *stats, rng *rand.Rand, n
 				Version: ping.Version{Name: "fb", Protocol: 765},
 			}
 		}
-		rig, err := literig.Start(literig.NewConfig([]config.Route{route}, 5*time.Second))
+		dialTimeout := 5 * time.Second
+		if hang {
+			dialTimeout = 400 * time.Millisecond
+			st.Hangs++
+		}
+		rig, err := literig.Start(literig.NewConfig([]config.Route{route}, dialTimeout))
 		if err != nil {
 			t.Fatal(err)
 		}
@@ -578,10 +667,10 @@ func e2eFallback(t *testing.T, tw *tracefmt.Writer, st *stats, rng *rand.Rand, n
 			if err != nil {
 				t.Fatalf("status client: %v", err)
 			}
+			// how often each backend was tried so far: the code's own lb.try events
 			tried := make([]int, nb)
-			for b, be := range bes {
-				_ = be.Sync()
-				tried[b] = be.Count()
+			for b := range addrs {
+				tried[b] = tc.get(addrs[b])
 			}
 			result, which := "closed", 0
 			switch {
@@ -595,12 +684,17 @@ func e2eFallback(t *testing.T, tw *tracefmt.Writer, st *stats, rng *rand.Rand, n
 				t.Fatalf("unexpected status text %q", text)
 			}
 			tw.Emit(tracefmt.Rec{"ev": "resolve", "ok": oks, "tried": tried, "fallback": hasFallback,
-				"result": result, "which": which, "strategy": string(route.Strategy)})
+				"result": result, "which": which, "strategy": string(route.Strategy), "dial_timeout_backend": hang})
 			st.Resolves++
 		}
 		rig.Close()
 		for _, be := range bes {
-			be.Close()
+			if be != nil {
+				be.Close()
+			}
+		}
+		for _, f := range cleanups {
+			f()
 		}
 	}
 }
